@@ -19,7 +19,7 @@ CLAIM = dict(
           "input. Tied to the C++ by running view::reduce (general entry point, incl. multi-axis subtract), reduce_add / multiply / "
           "subtract / maximum / minimum, sum, prod, amax, amin, accumulate_* / cumsum / cumprod on every shape of dim 1..4 extents "
           "1..3, every non-empty axis subset in two orders with mixed signs, axis None, keepdims absent / run-time bool / True_ / False_, "
-          "initial absent / present, axis as int / std::vector / std::array, run-time-rank and fixed-rank arrays. mean / var / stddev / "
+          "initial absent / present, axis as int / std::vector / std::array / compile-time constants (meta::ct, tuple of ct), run-time-rank and fixed-rank arrays. mean / var / stddev / "
           "vector_norm (double data, relative tolerance 1e-9; the model composes the views as mean.hpp / var.hpp do with the modelled "
           "fold order, the spec is the textbook formula on the designated elements) and trace are correspondence-level compositions: "
           "floating-point rounding of the C++ is outside the Coq model."),
@@ -116,6 +116,16 @@ def gen_cases(rng, tier):
                 op = ["cumsum", "cumprod", "subtract", "lin", "add", "multiply", "maximum", "minimum"][n % 8]
                 arrk = "fix" if n % 3 == 0 else "dyn"
                 out.append(("accumulate", "accum S:%s S:%s %s I:%d" % (op, arrk, A(shape, data_for(rng, op, size(shape))), axis - d if sign else axis), "c08"))
+    # compile-time axis constants (meta::ct / tuple of ct): the driver's fixed table
+    CT = [([0], 1), ([-1], 1), ([0, 1], 2), ([-1, 0], 2), ([2, 0], 3), ([1, -3, 2], 3)]
+    for i in range(240 if tier == "quick" else 1200):
+        ax, need = CT[i % 6]
+        d = rng.randint(need, 4); shape = tuple(rng.randint(1, maxe) for _ in range(d))
+        op = ["add", "lin"][(i // 6) % 2]; kd = KDS[(i // 12) % 5]
+        init = "N" if (i // 3) % 2 else "I:%d" % rng.randint(-20, 20)
+        out.append(("ct-axes", "reduce S:%s S:reduce S:ct S:%s S:dyn %s %s %s" % (op, kd, A(shape, data_for(rng, op, size(shape))), L(ax), init), "c08"))
+        if i % 3 == 0 and d >= 2:
+            out.append(("ct-axes", "reduce S:%s S:reduce S:cti S:%s S:dyn %s I:%d %s" % (op, kd, A(shape, data_for(rng, op, size(shape))), [1, -2][(i // 3) % 2], init), "c08"))
     # statistics on double data
     nstat = 500 if tier == "quick" else 4000
     for i in range(nstat):
